@@ -680,6 +680,13 @@ func (x *Exec) stringsFn(name string, call *ast.CallExpr, st *State) Value {
 		v := x.eval(a, st)
 		switch t := v.(type) {
 		case *StrV:
+			if (t.Opaque || t.Cases != nil) && (name == "Replace" || name == "ToUpper") {
+				// total functions from strings to strings: an unmodelled argument gives an unmodelled result
+				for _, b := range call.Args {
+					x.eval(b, st)
+				}
+				return &StrV{Opaque: true, Tag: "strings." + name}
+			}
 			if t.Opaque || t.Cases != nil {
 				unsup("strings.%s on unmodelled string (%s)", name, t.Tag)
 			}
